@@ -26,6 +26,8 @@ structure St where
   pnetK : Nat := 0
   sched : List PCh := []
   pexSeed : Bool := false
+  tnode : Bool := false
+  snode : Bool := false
 
 /-- one `sendPacketMsg` whose packet is handed to the receive loop; `false` = nothing pending -/
 def pairStep (p : Pair) : Pair × Bool :=
@@ -282,6 +284,23 @@ def otherVerdict (kind : String) (toks : List String) (pexMarker : Nat) (pexSeed
       (← parseBool (← kv toks "wellformed")) true), pexMarker)
   | _ => none
 
+/-- the stage at which the stream's hostile inbound peer misbehaves → the accept-path failure it
+causes (`none` = an honest handshake) -/
+def acceptStage (s : String) : Option (Option ReactorMsgs.AcceptFailure) :=
+  match s with
+  | "close-at-once" => some (some .secretConn)
+  | "garbage-for-secretconn" => some (some .secretConn)
+  | "close-after-secretconn" => some (some .nodeInfoExchange)
+  | "ni-garbled" => some (some .nodeInfoExchange)
+  | "ni-oversized" => some (some .nodeInfoExchange)
+  | "ni-truncated" => some (some .nodeInfoExchange)
+  | "ni-empty" => some (some .nodeInfoInvalid)
+  | "ni-invalid" => some (some .nodeInfoInvalid)
+  | "ni-wrong-id" => some (some .idMismatch)
+  | "ni-incompatible" => some (some .incompatible)
+  | "honest" => some none
+  | _ => none
+
 def step (st : St) (toks : List String) : St × String :=
   match toks with
   | "sconn" :: rest =>
@@ -360,6 +379,23 @@ def step (st : St) (toks : List String) : St × String :=
       ({ st with pair := some p' },
         ";".intercalate per ++ " err=" ++ (match p'.r.stopped with | some e => showErr e | none => "none"))
     | none => (st, "bad-op")
+  | ["tnode"] => ({ st with tnode := true }, "ok")
+  | ["snode"] => ({ st with snode := true }, "ok")
+  | "tacc" :: rest =>
+    match st.tnode, (kv rest "stage").bind acceptStage with
+    | true, some none => (st, "accepted")
+    | true, some (some f) =>
+      (st, match ReactorMsgs.acceptErrOf f with
+        | .rejected => "ErrRejected" | .filterTimeout => "ErrFilterTimeout"
+        | .transportClosed => "ErrTransportClosed" | .other => "UNCLASSIFIED-ERROR")
+    | _, _ => (st, "bad-op")
+  | "sacc" :: rest =>
+    match st.snode, (kv rest "stage").bind acceptStage with
+    | true, some none => (st, "alive")
+    | true, some (some f) =>
+      (st, match ReactorMsgs.acceptRoutineOn (ReactorMsgs.acceptErrOf f) with
+        | .continue => "alive" | .exit => "not-accepting" | .panic => "NODE-PROCESS-DIED")
+    | _, _ => (st, "bad-op")
   | "pnet" :: rest =>
     match (kv rest "k").bind String.toNat?, kv rest "type" with
     | some k, some _ =>
